@@ -20,6 +20,15 @@ ATOMS = {"one": 1.0, "GF2_CM2/pi": GF**2 * GEV_CM2 / math.pi, "GF2_PB/pi": GF**2
 NC_KINDS = {"XSHERANC", "XSHERANCAVG", "F1", "g5"}
 
 
+class Toy:
+    def hasFlavor(self, pid):
+        return pid != 22
+
+    def xfxQ2(self, pid, x, Q2):
+        w = {21: 3.0, 1: 1.0, 2: 2.0, -1: 0.4, -2: 0.3, 3: 0.25, -3: 0.2, 4: 0.1, -4: 0.08}.get(pid, 0.02)
+        return w * x**0.5 * (1 - x) ** 3 * (1 + 0.05 * math.log(Q2 / 20.0))
+
+
 def execute(ob):
     pt = ob["pt"]
     x, y, q2 = (float(common.frac(pt[k])) for k in ("x", "y", "Q2"))
@@ -29,7 +38,7 @@ def execute(ob):
     names = [f"{b}_{flav}" for b in ob["basis"]]
     xs = f"{ob['kind']}_{flav}"
     line = dict(oid=ob["oid"], kind=ob["kind"], proj=ob["proj"], pt=pt, coeffs=ob["coeffs"], coeffs2=ob["coeffs2"], atom=ob["atom"], outcome="OK",
-                keyset_ok=True, nkeys=0, resid_milli=0, resid2_milli=0, kinematics_ok=True, note="", doc_resid_milli=0)
+                keyset_ok=True, nkeys=0, resid_milli=0, resid2_milli=0, pred_milli=0, kinematics_ok=True, note="", doc_resid_milli=0)
     th = cards.theory(PTO=ob.get("pto", 1), PTODIS=ob.get("pto", 1), FNS=fns, NfFF=3, mc=1.4, mb=4.5, mt=170.0, MP=M, MW=math.sqrt(mw2), GF=GF, TMC=tmc, Q0=1.0)
     kin = dict(x=x, Q2=q2, y=y)
     obsd = {xs: [dict(kin), dict(kin, y=y / 2)]}      # two inelasticities at one (x, Q2) in one card
@@ -82,6 +91,16 @@ def execute(ob):
         res = float(np.abs(r2.orders[k][0] - comb).max())
         w2 = max(w2, common.milli(res, 1e-12 * scale) if scale > 0 else (0 if res == 0 else 2**30))
     line["resid2_milli"] = w2
+    # the same combination on PREDICTIONS (the output applied to a PDF), at the central scales and at xiR != xiF
+    wp = 0
+    for xir, xif in ((1.0, 1.0), (0.5, 2.0), (2.0, 1.0)):
+        pr = out.apply_pdf_alphas_alphaqed_xir_xif(Toy(), lambda mu: 0.2 / (1 + 0.02 * mu), lambda mu: 1 / 137, xir, xif)
+        sig = float(pr[xs][0]["result"])
+        parts = [c * float(pr[n][0]["result"]) for n, c in zip(names, coeffs) if c != 0.0]
+        scale = max([abs(sig)] + [abs(v) for v in parts])
+        dev = abs(sig - sum(parts))
+        wp = max(wp, common.milli(dev, 1e-11 * scale) if scale > 0 else (0 if dev == 0 else 2**30))
+    line["pred_milli"] = wp
     return line
 
 
@@ -126,6 +145,7 @@ def run(ctx):
     ctx.selftest("Trace_C11", "Trace.cfg", [{k: v for k, v in ln.items() if k not in ('note', 'doc_resid_milli')} for ln in lines if ln["oid"] not in bad and (ln["outcome"] == "OK")], [
         ("resid", lambda l: dict(l, resid_milli=2000)),
         ("resid2", lambda l: dict(l, resid2_milli=2000)),
+        ("pred", lambda l: dict(l, pred_milli=2000)),
         ("coeffs", lambda l: dict(l, coeffs=l["coeffs"][:-1])),
         ("keys", lambda l: dict(l, keyset_ok=False)),
         ("kinematics", lambda l: dict(l, kinematics_ok=False))])
